@@ -65,6 +65,16 @@ Section Run.
       eapply P_merge; eauto. apply Hq. left. reflexivity.
   Qed.
 
+  (* keys that equal themselves never make the merge dereference a null aggregation *)
+  Definition Qself : Prop := forall k, Q k -> self_eq k = true.
+  Lemma merge_all_no_crash es t : (forall e, In e es -> self_eq (fst e) = true) -> merge_all L t es <> None.
+  Proof.
+    revert t. induction es as [|[k d] es IH]; intros t Hq; cbn [merge_all]; [discriminate|].
+    destruct (merge_in L t (k, d)) eqn:Em.
+    - apply IH. intros x Hx. apply Hq. right. assumption.
+    - exfalso. eapply merge_in_no_crash; [|exact Em]. apply (Hq (k, d)). left. reflexivity.
+  Qed.
+
   Definition SP (s : storage) : Prop :=
     P (s_interval s) /\ Forall (Forall P) (s_unrep s) /\
     Forall (fun o => match o with Some t => P t | None => True end) (s_last s).
@@ -100,16 +110,15 @@ Section Run.
     - reflexivity.
     - intros _. apply Forall_forall. intros x Hx. apply in_map_iff in Hx. destruct Hx as [? [<- _]]. reflexivity.
     - intros _ _. apply Forall_forall. intros x Hx. apply in_map_iff in Hx. destruct Hx as [? [<- _]]. reflexivity.
-    - intros i Hi. unfold pend, lastv. cbn. fold temps. rewrite !nth_map_const. cbn.
-      rewrite (nth_indep _ None (@None table)) by (rewrite map_length; exact Hi).
-      replace (nth i (map (fun _ : bool => @None table) temps) None) with (@None table) by (symmetry; apply nth_map_const).
-      repeat split; try lia. rewrite total_nil. reflexivity.
+    - intros i Hi. unfold pend, lastv. cbn [s_interval s_unrep s_last]. fold temps.
+      rewrite (nth_map_const temps O i), (nth_map_const temps (@nil table) i), (nth_map_const temps (@None table) i).
+      unfold sums. cbn. repeat split; try lia.
   Qed.
 
   (* ---------------------------------------------------------------- recording *)
   Lemma pend_interval s t i :
     pend (mk_storage t (s_pushed s) (s_unrep s) (s_last s)) i = pend s i - total (s_interval s) + total t.
-  Proof. unfold pend. cbn. lia. Qed.
+  Proof. unfold pend. cbn [s_interval s_unrep]. lia. Qed.
 
   Lemma G_record s hist marks t kvs v :
     G s hist marks -> total t = total (s_interval s) + v ->
@@ -127,7 +136,8 @@ Section Run.
   (* ---------------------------------------------------------------- one collection *)
   Lemma P_concat (l : list table) e : Forall P l -> In e (concat l) -> Q (fst e).
   Proof.
-    intros Hl Hin. apply in_concat in Hin. destruct Hin as [t [Ht He]]. rewrite Forall_forall in Hl. eapply P_keys; eauto.
+    intros Hl Hin. apply in_concat in Hin. destruct Hin as [t [Ht He]]. rewrite Forall_forall in Hl.
+    apply (P_keys t e); [apply Hl; exact Ht|exact He].
   Qed.
 
   Lemma perm_nil_eq {A} (l : list A) : Permutation [] l -> l = [].
@@ -139,12 +149,13 @@ Section Run.
     match res with
     | CReport t => P t /\ total t = sum_vals window /\ SP s' /\ G s' hist (set_nth i (length hist) marks)
     | CNoCb => sum_vals window = 0 /\ SP s' /\ G s' hist (set_nth i (length hist) marks)
-    | _ => True
+    | CCrash => ~ Qself
+    | CReject => True
     end.
   Proof.
     intros Hi HSP HG. pose proof HSP as [Hpi [Hpu Hpl]]. pose proof HG as [G1 G2 G3 G4 G5 G6 G7].
     unfold st_collect. destruct (is_perm iw (s_interval s)) eqn:Eperm; cbn [negb];
-      [|intros X; inversion X; exact I].
+      [|intros X; apply pair_equal_spec in X; destruct X as [<- <-]; exact I].
     pose proof (is_perm_perm _ _ Eperm) as Hperm.
     assert (Hiw : P iw) by (eapply P_perm; [apply Permutation_sym; exact Hperm|exact Hpi]).
     assert (Htot : total iw = total (s_interval s)) by (apply total_perm; exact Hperm).
@@ -159,30 +170,34 @@ Section Run.
       assert (Hpend : pend s O = total (s_interval s)).
       { unfold pend. replace (nth O (s_unrep s) []) with (@nil table); [cbn; lia|].
         symmetry. apply (Forall_nth_d (fun l => l = []) O (s_unrep s) [] Hun eq_refl). }
-      rewrite Ec. cbn zeta.
+      rewrite Ec. cbv zeta.
       assert (Gnew : forall last', length last' = ncol ->
                 G (mk_storage [] (s_pushed s) (s_unrep s) last') hist (set_nth O (length hist) marks)).
-      { intros last' Hl. constructor; cbn; auto.
+      { intros last' Hl. constructor; cbn [s_interval s_pushed s_unrep s_last].
         - rewrite set_nth_length. assumption.
+        - assumption.
+        - assumption.
+        - intros _. assumption.
+        - intros _. assumption.
         - intros _ Hs. rewrite Hs in Hslow. discriminate.
         - intros j Hj. assert (j = O) by lia. subst j. rewrite nth_set_nth_same by lia. split; [lia|]. split.
-          + unfold pend. cbn. replace (nth O (s_unrep s) []) with (@nil table).
+          + unfold pend. cbn [s_interval s_unrep]. replace (nth O (s_unrep s) []) with (@nil table).
             * rewrite skipn_all. reflexivity.
             * symmetry. apply (Forall_nth_d (fun l => l = []) O (s_unrep s) [] Hun eq_refl).
           + rewrite Ec. discriminate. }
       destruct iw as [|e0 iw'].
-      + intros X. inversion X; subst. cbn zeta. split; [rewrite <- Hb, Hpend, <- Htot; reflexivity|]. split.
-        * repeat split; cbn; auto.
+      + intros X. apply pair_equal_spec in X. destruct X as [<- <-]. cbv zeta. split; [rewrite <- Hb, Hpend, <- Htot; reflexivity|]. split.
+        * repeat split; cbn [s_interval s_pushed s_unrep s_last]; auto.
         * apply Gnew. assumption.
-      + destruct (table_same rw (e0 :: iw')) eqn:Esame; [|intros X; inversion X; exact I].
-        intros X. inversion X; subst. cbn zeta. split; [assumption|]. split; [rewrite <- Hb, Hpend; exact Htot|]. split.
-        * repeat split; cbn; auto. destruct (nth O (s_last s) None); [assumption|]. apply Forall_set_nth; [assumption|exact P_nil].
+      + destruct (table_same rw (e0 :: iw')) eqn:Esame; [|intros X; apply pair_equal_spec in X; destruct X as [<- <-]; exact I].
+        intros X. apply pair_equal_spec in X. destruct X as [<- <-]. cbv zeta. split; [assumption|]. split; [rewrite <- Hb, Hpend; exact Htot|]. split.
+        * repeat split; cbn [s_interval s_pushed s_unrep s_last]; auto. destruct (nth O (s_last s) None); [assumption|]. apply Forall_set_nth; [assumption|exact P_nil].
         * apply Gnew. destruct (nth O (s_last s) None); [assumption|]. rewrite set_nth_length. assumption.
     - (* merge path *)
       assert (Hslow : slow = true).
       { unfold slow. apply negb_true_iff. apply andb_false_iff in Efast. apply andb_false_iff. destruct Efast as [E|E]; [left; exact E|].
         destruct (ncol =? 1)%nat eqn:En; [|left; reflexivity]. right. apply Nat.eqb_eq in En. assert (i = O) by lia. subst i. exact E. }
-      cbn zeta.
+      cbv zeta.
       set (nonempty := match iw with [] => false | _ => true end).
       set (unrep1 := if nonempty then map (fun l => l ++ [iw]) (s_unrep s) else s_unrep s).
       set (pushed1 := s_pushed s || nonempty).
@@ -198,7 +213,7 @@ Section Run.
       + (* nothing was ever pushed: no callback *)
         apply negb_true_iff in Epush. unfold pushed1 in Epush. apply orb_false_iff in Epush. destruct Epush as [Ep En].
         unfold nonempty in En. destruct iw as [|? ?]; [|discriminate].
-        intros X. inversion X; subst. cbn zeta.
+        intros X. apply pair_equal_spec in X. destruct X as [<- <-]. cbv zeta.
         pose proof (G5 Ep) as Hun. pose proof (G6 Ep Hslow) as Hln.
         assert (Hint0 : total (s_interval s) = 0) by (rewrite <- Htot; apply total_nil).
         assert (Hunj : forall j, nth j (s_unrep s) [] = []).
@@ -212,12 +227,16 @@ Section Run.
           - rewrite (sum_vals_split (nth i marks O) hist), <- Hb, <- (Hc eq_refl), Hpend0. unfold lastv. rewrite Hlnj. reflexivity.
           - rewrite <- Hb. apply Hpend0. }
         split; [repeat split; cbn; auto; unfold unrep1; cbn; assumption|].
-        constructor; cbn; auto.
+        constructor; cbn [s_interval s_pushed s_unrep s_last].
         * rewrite set_nth_length. assumption.
-        * unfold unrep1. cbn. assumption.
-        * intros _. rewrite Ep. reflexivity.
+        * assumption.
+        * assumption.
+        * intros _. unfold pushed1. cbn. rewrite Ep. reflexivity.
         * intros _. unfold unrep1. cbn. assumption.
-        * intros j Hj. unfold pend, lastv. cbn. unfold unrep1. cbn. rewrite Hunj, Hlnj, total_nil. cbn.
+        * intros _ _. assumption.
+        * intros j Hj. unfold pend, lastv. cbn [s_interval s_unrep s_last]. unfold unrep1. cbn [nonempty].
+          change (match @nil entry with [] => false | _ :: _ => true end) with false. cbn iota.
+          rewrite Hunj, Hlnj, total_nil. unfold sums. cbn [fold_right].
           destruct (Nat.eq_dec i j) as [->|Hne].
           -- rewrite nth_set_nth_same by lia. rewrite skipn_all, firstn_all. split; [lia|]. split; [reflexivity|].
              intros Hcu. destruct (G7 j Hj) as [Ha' [Hb' Hc']].
@@ -238,19 +257,22 @@ Section Run.
                   last2 = set_nth i (Some t) (s_last s) ->
                   (nth i temps false = true -> total t = sum_vals hist) ->
                   G (mk_storage [] pushed1 unrep2 last2) hist (set_nth i (length hist) marks)).
-        { intros last2 t -> Htt. constructor; cbn; auto.
+        { intros last2 t -> Htt. constructor; cbn [s_interval s_pushed s_unrep s_last].
           - rewrite set_nth_length. assumption.
+          - assumption.
           - rewrite set_nth_length. assumption.
           - intros Hs. rewrite Hs in Hslow. discriminate.
           - intros Hp. rewrite Hp in Epush. discriminate.
           - intros Hp. rewrite Hp in Epush. discriminate.
-          - intros j Hj. unfold pend, lastv. cbn. rewrite total_nil. destruct (Nat.eq_dec i j) as [->|Hne].
-            + rewrite !nth_set_nth_same by lia. unfold unrep2. rewrite nth_set_nth_same by lia. cbn.
+          - intros j Hj. unfold pend, lastv. cbn [s_interval s_unrep s_last]. rewrite total_nil. destruct (Nat.eq_dec i j) as [->|Hne].
+            + rewrite !nth_set_nth_same by lia. unfold unrep2. rewrite nth_set_nth_same by lia. unfold sums. cbn [fold_right].
               rewrite skipn_all, firstn_all. split; [lia|]. split; [reflexivity|]. exact Htt.
             + rewrite !nth_set_nth_other by assumption. unfold unrep2. rewrite nth_set_nth_other by assumption.
               destruct (G7 j Hj) as [Ha' [Hb' Hc']]. split; [assumption|]. split; [|exact Hc'].
               rewrite Hu1sum by assumption. rewrite <- Hb'. unfold pend. lia. }
-        destruct (merge_all (c_limit c) [] (concat mine)) as [m1|] eqn:Em1; [|intros X; inversion X; exact I].
+        destruct (merge_all L [] (concat mine)) as [m1|] eqn:Em1.
+        2:{ intros X; apply pair_equal_spec in X; destruct X as [<- <-]. intros Hq. revert Em1. apply merge_all_no_crash.
+            intros e He. apply Hq. eapply P_concat; eauto. }
         assert (Hm1P : P m1) by (eapply P_merge_all; [exact P_nil| |exact Em1]; intros e He; eapply P_concat; eauto).
         assert (Hm1tot : total m1 = pend s i).
         { rewrite (merge_all_total _ _ _ _ Em1), total_nil, Hminesum. lia. }
@@ -259,29 +281,31 @@ Section Run.
         * assert (HltP : P lt).
           { pose proof (Forall_nth_d _ i (s_last s) None Hpl I) as Hx. cbn in Hx. rewrite Elast in Hx. exact Hx. }
           destruct (nth i temps false) eqn:Ecu.
-          -- destruct (merge_all (c_limit c) m1 lt) as [m|] eqn:Em; [|intros X; inversion X; exact I].
+          -- destruct (merge_all L m1 lt) as [m|] eqn:Em.
+             2:{ intros X; apply pair_equal_spec in X; destruct X as [<- <-]. intros Hq. revert Em. apply merge_all_no_crash.
+                 intros e He. apply Hq. eapply P_keys; eauto. }
              assert (HmP : P m) by (eapply P_merge_all; [exact Hm1P| |exact Em]; intros e He; eapply P_keys; eauto).
              assert (Hmtot : total m = sum_vals hist).
              { rewrite (merge_all_total _ _ _ _ Em), Hm1tot, Hb. specialize (Hc eq_refl). unfold lastv in Hc. rewrite Elast in Hc.
                rewrite Hc. rewrite (sum_vals_split (nth i marks O) hist). lia. }
-             destruct (is_perm rw m) eqn:Erw; [|intros X; inversion X; exact I].
+             destruct (is_perm rw m) eqn:Erw; [|intros X; apply pair_equal_spec in X; destruct X as [<- <-]; exact I].
              pose proof (is_perm_perm _ _ Erw) as Hrw.
-             intros X. inversion X; subst. cbn zeta.
+             intros X. apply pair_equal_spec in X. destruct X as [<- <-]. cbv zeta.
              assert (HrwP : P rw) by (eapply P_perm; [apply Permutation_sym; exact Hrw|exact HmP]).
              assert (Hrwtot : total rw = sum_vals hist) by (rewrite (total_perm _ _ Hrw); exact Hmtot).
              split; [assumption|]. split; [assumption|]. split.
-             ++ repeat split; cbn; auto. apply Forall_set_nth; assumption.
+             ++ repeat split; cbn [s_interval s_pushed s_unrep s_last]; auto. apply Forall_set_nth; assumption.
              ++ eapply Gnew; [reflexivity|]. intros _. assumption.
-          -- destruct (is_perm rw m1) eqn:Erw; [|intros X; inversion X; exact I].
+          -- destruct (is_perm rw m1) eqn:Erw; [|intros X; apply pair_equal_spec in X; destruct X as [<- <-]; exact I].
              pose proof (is_perm_perm _ _ Erw) as Hrw.
-             intros X. inversion X; subst. cbn zeta.
+             intros X. apply pair_equal_spec in X. destruct X as [<- <-]. cbv zeta.
              assert (HrwP : P rw) by (eapply P_perm; [apply Permutation_sym; exact Hrw|exact Hm1P]).
              split; [assumption|]. split; [rewrite (total_perm _ _ Hrw), Hm1tot; exact Hb|]. split.
-             ++ repeat split; cbn; auto. apply Forall_set_nth; assumption.
+             ++ repeat split; cbn [s_interval s_pushed s_unrep s_last]; auto. apply Forall_set_nth; assumption.
              ++ eapply Gnew; [reflexivity|]. intros Hx. rewrite Hx in Ecu. discriminate.
-        * destruct (is_perm rw m1) eqn:Erw; [|intros X; inversion X; exact I].
+        * destruct (is_perm rw m1) eqn:Erw; [|intros X; apply pair_equal_spec in X; destruct X as [<- <-]; exact I].
           pose proof (is_perm_perm _ _ Erw) as Hrw.
-          intros X. inversion X; subst. cbn zeta.
+          intros X. apply pair_equal_spec in X. destruct X as [<- <-]. cbv zeta.
           assert (HrwP : P rw) by (eapply P_perm; [apply Permutation_sym; exact Hrw|exact Hm1P]).
           assert (Hlast0 : nth i temps false = true -> sum_vals (firstn (nth i marks O) hist) = 0).
           { intros Hcu. rewrite <- (Hc Hcu). unfold lastv. rewrite Elast. reflexivity. }
@@ -289,7 +313,7 @@ Section Run.
           { rewrite (total_perm _ _ Hrw), Hm1tot, Hb. destruct (nth i temps false) eqn:Ecu; [|reflexivity].
             rewrite (sum_vals_split (nth i marks O) hist), (Hlast0 eq_refl). lia. }
           split.
-          ++ repeat split; cbn; auto. apply Forall_set_nth; assumption.
+          ++ repeat split; cbn [s_interval s_pushed s_unrep s_last]; auto. apply Forall_set_nth; assumption.
           ++ eapply Gnew; [reflexivity|]. intros Hcu.
              rewrite (total_perm _ _ Hrw), Hm1tot, Hb, (sum_vals_split (nth i marks O) hist), (Hlast0 Hcu). lia.
   Qed.
@@ -309,7 +333,8 @@ Section Run.
             match res with
             | CReport t => P t /\ total t = sum_vals window /\ results_ok rs' r hist (set_nth i (length hist) marks)
             | CNoCb => sum_vals window = 0 /\ results_ok rs' r hist (set_nth i (length hist) marks)
-            | _ => rs' = []
+            | CCrash => ~ Qself /\ rs' = []
+            | CReject => rs' = []
             end
         end
     end.
@@ -323,21 +348,22 @@ Section Run.
     induction ops as [|o ops IH]; intros walks s hist marks HSP HG Hgood; [reflexivity|].
     inversion Hgood as [|? ? Hg Hgood']; subst. destruct o as [kvs v|v|i]; cbn [run_ops results_ok].
     - apply IH; [| |assumption].
-      + unfold st_record. apply SP_interval; [assumption|]. apply P_record; [destruct HSP; assumption|exact Hg].
+      + unfold st_record. apply SP_interval; [assumption|]. apply P_record; [exact (proj1 HSP)|exact Hg].
       + unfold st_record. apply G_record; [assumption|]. rewrite record_total, accepted_counts. reflexivity.
     - unfold st_record0. destruct (record_ref (c_limit c) [] (accepted (c_mono c) v) (s_interval s)) as [t|] eqn:Er.
       + apply IH; [| |assumption].
-        * apply SP_interval; [assumption|]. eapply P_record_ref; [destruct HSP; eassumption|exact Q_nil|exact Er].
+        * apply SP_interval; [assumption|]. eapply P_record_ref; [exact (proj1 HSP)|exact Q_nil|exact Er].
         * apply G_record; [assumption|]. rewrite (record_ref_total _ _ _ _ _ Er), accepted_counts. reflexivity.
       + (* the empty map equals itself: record_ref cannot fail *)
         exfalso. unfold record_ref in Er. destruct (tfind [] (s_interval s)); [discriminate|].
         destruct (is_overflow (c_limit c) (s_interval s)); [discriminate|]. cbn in Er. discriminate.
     - fold temps. fold ncol. destruct (ncol <=? i)%nat eqn:Ei; [reflexivity|]. apply Nat.leb_gt in Ei.
       destruct walks as [|iw ws]; [reflexivity|].
-      destruct (st_collect c i iw (match ws with w :: _ => w | [] => [] end) s) as [s' res] eqn:Ec.
-      pose proof (collect_step s hist marks i iw _ s' res Ei HSP HG Ec) as Hstep. cbn zeta in Hstep.
-      destruct res as [|t| |]; try reflexivity.
+      match goal with |- context [st_collect ?a ?b ?c0 ?d ?e] => destruct (st_collect a b c0 d e) as [s' res] eqn:Ec end.
+      pose proof (collect_step s hist marks i iw _ s' res Ei HSP HG Ec) as Hstep. cbv zeta in Hstep.
+      destruct res as [|t| |]; cbv iota beta in Hstep |- *; try reflexivity.
       + destruct Hstep as [H1 [H2 H3]]. split; [assumption|]. apply IH; assumption.
       + destruct Hstep as [H1 [H2 [H3 H4]]]. split; [assumption|]. split; [assumption|]. apply IH; assumption.
+      + split; [assumption|reflexivity].
   Qed.
 End Run.
